@@ -1,6 +1,7 @@
 import Shuttle.Drive.C18
 import Shuttle.Drive.C01
 import Shuttle.Drive.C02
+import Shuttle.Drive.C12
 /-! Line protocol: each input line is `(<prop> <request>)`; one output line per input line. -/
 open Shuttle
 
@@ -9,6 +10,7 @@ def dispatch (line : String) : String :=
   | some (.list [.atom "C18", req]) => Drive.C18.handle req
   | some (.list [.atom "C01", req]) => Drive.C01.handle req
   | some (.list [.atom "C02", req]) => Drive.C02.handle req
+  | some (.list [.atom "C12", req]) => Drive.C12.handle req
   | some _ => "bad-op"
   | none => "bad-parse"
 
